@@ -46,6 +46,11 @@ type Req struct {
 	Timeout   time.Duration
 	LocalPort int
 	RawBytes  []byte // if set, sent verbatim instead
+	// KeepAlive: the client does not ask for the connection to be closed (no "Connection: close"); the response is read
+	// by its own framing and the client closes afterwards
+	KeepAlive bool
+	// Trailers are sent after a chunked body (announced in a Trailer header)
+	Trailers [][2]string
 }
 
 func (q *Req) bytes(host string) []byte {
@@ -72,10 +77,17 @@ func (q *Req) bytes(host string) []byte {
 	for _, h := range q.Headers {
 		fmt.Fprintf(&b, "%s: %s\r\n", h[0], h[1])
 	}
-	if !has("Connection") {
+	if !has("Connection") && !q.KeepAlive {
 		b.WriteString("Connection: close\r\n")
 	}
 	if q.Chunked {
+		if len(q.Trailers) > 0 {
+			var names []string
+			for _, t := range q.Trailers {
+				names = append(names, t[0])
+			}
+			fmt.Fprintf(&b, "Trailer: %s\r\n", strings.Join(names, ", "))
+		}
 		b.WriteString("Transfer-Encoding: chunked\r\n\r\n")
 		cs := q.ChunkSize
 		if cs <= 0 {
@@ -90,7 +102,11 @@ func (q *Req) bytes(host string) []byte {
 			b.Write(q.Body[i:e])
 			b.WriteString("\r\n")
 		}
-		b.WriteString("0\r\n\r\n")
+		b.WriteString("0\r\n")
+		for _, t := range q.Trailers {
+			fmt.Fprintf(&b, "%s: %s\r\n", t[0], t[1])
+		}
+		b.WriteString("\r\n")
 	} else {
 		if len(q.Body) > 0 || m == "POST" || m == "PUT" || m == "PATCH" {
 			if !has("Content-Length") {
@@ -128,6 +144,30 @@ func Do(addr string, q *Req) *Resp {
 		_, e := c.Write(q.bytes(addr))
 		werr <- e
 	}()
+	if q.KeepAlive {
+		// the server keeps the connection open: read exactly one response by its framing
+		resp, err := http.ReadResponse(bufio.NewReader(c), nil)
+		if err != nil {
+			if ne, ok := err.(net.Error); ok && ne.Timeout() {
+				r.TimedOut = true
+			}
+			r.ConnErr = "reading response: " + err.Error()
+			r.Dur = time.Since(t0)
+			return r
+		}
+		r.FirstByte = time.Since(t0)
+		r.Status, r.Header = resp.StatusCode, resp.Header
+		body, berr := io.ReadAll(resp.Body)
+		r.Body = body
+		if berr != nil {
+			if ne, ok := berr.(net.Error); ok && ne.Timeout() {
+				r.TimedOut = true
+			}
+			r.BodyErr = berr.Error()
+		}
+		r.Dur = time.Since(t0)
+		return r
+	}
 	var raw bytes.Buffer
 	buf := make([]byte, 64<<10)
 	for {
